@@ -224,7 +224,9 @@ func engineConcSearch(ctx *Ctx) {
 			}(g)
 		}
 		close(start)
-		wg.Wait()
+		if !c11WaitOrDeadlock(ctx, &wg, cs, "concurrent search / statistics") {
+			return
+		}
 		// sequential references afterwards (stable-reference rule)
 		type refT struct {
 			refs   []vlib.Ranked
@@ -332,6 +334,56 @@ func engineConcSearch(ctx *Ctx) {
 		ctx.R.Path("monitored-searches", int64(want))
 		if rd < 2 {
 			ctx.R.Sample(cs)
+		}
+	}
+	c11MonitorHammer(ctx, r)
+}
+
+// c11MonitorHammer: many goroutines issue monitored searches of a few queries on one small database as fast as they can;
+// afterwards every total of the monitor - also the *sums* of the observed query lengths - accounts for every search.
+func c11MonitorHammer(ctx *Ctx, r *rand.Rand) {
+	for round := 0; round < ctx.Pick(3, 12); round++ {
+		db := vlib.MustLoad(vlib.GenCommands(r, vlib.DBSpec{N: 12, TieHeavy: true}))
+		mdb := database.NewMonitoredDatabase(db)
+		words := vlib.DBWords(db.Commands)
+		qs := []string{vlib.GenQuery(r, words, 1, 0), vlib.GenQuery(r, words, 2, 0), vlib.GenQuery(r, words, 3, 0) + " extra words here"}
+		G, K := 16, ctx.Pick(2500, 6000)
+		cs := map[string]interface{}{"part": "monitor hammer", "goroutines": G, "searches_each": K, "queries": qs}
+		ctx.R.Begin(cs)
+		ctx.R.Eval(1)
+		var wg sync.WaitGroup
+		var lenSum int64
+		for g := 0; g < G; g++ {
+			wg.Add(1)
+			go func(g int) {
+				defer wg.Done()
+				for k := 0; k < K; k++ {
+					q := qs[(k+g)%len(qs)]
+					mdb.SearchWithMonitoring(q, 3)
+					atomic.AddInt64(&lenSum, int64(len(q)))
+				}
+			}(g)
+		}
+		if !c11WaitOrDeadlock(ctx, &wg, cs, "monitored searches") {
+			return
+		}
+		rep := mdb.GetPerformanceReport()
+		sum := map[string]float64{}
+		for _, m := range rep.ApplicationMetrics {
+			sum[m.Name] += m.Value
+		}
+		want := float64(G * K)
+		ctx.R.Path("monitor-hammer-searches", int64(G*K))
+		ctx.R.Nontriv("monitor-hammer", round)
+		for name, exp := range map[string]float64{"searches_total": want, "query_length_count": want, "query_length_sum": float64(atomic.LoadInt64(&lenSum))} {
+			if got, ok := sum[name]; ok && got != exp {
+				ctx.R.Violate(vlib.Violation{Property: "C11", Clause: "metric-increment-lost", Path: "MonitoredDatabase/" + name,
+					Detail: fmt.Sprintf("%s = %v after %d monitored searches from %d goroutines, expected %v", name, got, G*K, G, exp), Witness: cs})
+			}
+		}
+		if hm := sum["cache_hits_total"] + sum["cache_misses_total"]; hm != want {
+			ctx.R.Violate(vlib.Violation{Property: "C11", Clause: "metric-increment-lost", Path: "MonitoredDatabase/cache_hits+misses",
+				Detail: fmt.Sprintf("cache_hits_total+cache_misses_total = %v after %v monitored searches", hm, want), Witness: cs})
 		}
 	}
 }
@@ -979,4 +1031,47 @@ func c11Snapshots(ctx *Ctx, r *rand.Rand) {
 			break
 		}
 	}
+}
+
+// c11WaitOrDeadlock waits for the goroutines of a round. When they have not finished after two minutes it looks at what they
+// are doing: goroutines that have been parked on a mutex of the code under test for more than a minute, while none is
+// running, never return - that is reported with their stacks (a search that never returns does not return what it returns
+// when run alone). Anything else (slow machine) is inconclusive. Either way the shard ends: the goroutines cannot be stopped.
+func c11WaitOrDeadlock(ctx *Ctx, wg *sync.WaitGroup, cs interface{}, what string) bool {
+	done := make(chan struct{})
+	go func() { wg.Wait(); close(done) }()
+	select {
+	case <-done:
+		return true
+	case <-time.After(130 * time.Second):
+	}
+	buf := make([]byte, 1<<20)
+	buf = buf[:runtime.Stack(buf, true)]
+	blocked, running := 0, 0
+	var sample []string
+	for _, g := range strings.Split(string(buf), "\n\n") {
+		if !strings.Contains(g, "github.com/Vedant9500/WTF/internal/") || strings.Contains(g, "c11WaitOrDeadlock") {
+			continue
+		}
+		head := strings.SplitN(g, "\n", 2)[0]
+		switch {
+		case (strings.Contains(head, "sync.RWMutex") || strings.Contains(head, "sync.Mutex") || strings.Contains(head, "semacquire")) && strings.Contains(head, "minutes"):
+			blocked++
+			if len(sample) < 3 {
+				sample = append(sample, vlib.Trunc(g, 1500))
+			}
+		case strings.Contains(head, "[running]") || strings.Contains(head, "[runnable]"):
+			running++
+		}
+	}
+	if blocked > 0 && running == 0 {
+		ctx.R.Violate(vlib.Violation{Property: "C11", Clause: "deadlock", Path: what,
+			Detail:  fmt.Sprintf("%d goroutines have been parked on a lock inside the code under test for more than a minute and none is running: the calls never return", blocked),
+			Witness: map[string]interface{}{"case": cs, "goroutines": sample}})
+	} else {
+		ctx.R.Inconcl("round did not finish within 130 s (no lock cycle visible in the goroutine dump)")
+	}
+	ctx.R.Write()
+	os.Exit(0)
+	return false
 }
